@@ -50,6 +50,10 @@ def generate(tier, rng):
             for p in sig:
                 if p['d']:
                     variants.append((None, [p['n']], False))            # excluded by the predicate (must have a default)
+            for p in sig:
+                for q in sig:
+                    if q['d'] and q['n'] != p['n']:
+                        variants.append((p['n'], [q['n']], False))      # a context parameter AND a predicate-excluded one
             if sig and sig[0]['k'] == 'pk':
                 variants.append((None, [], True))                       # view method
                 variants.append(('context', [], True))
@@ -68,6 +72,9 @@ def generate(tier, rng):
                 if len(keysets) > 40 and not thorough:
                     keysets = rng.sample(keysets, 40)
                 yield {'suite': NAME, 'op': 'specbind', 'method': m, 'keysets': keysets, 'tag': 'specbind'}
+                # the type validator on the binding side (one validator object for all methods, as an application has)
+                if not view and (thorough or rng.random() < 0.4):
+                    yield {'suite': NAME, 'op': 'specbind', 'method': m, 'keysets': keysets, 'tag': 'specbind-pydantic', 'validator': 'pydantic'}
                 # the same function exposed a second time under another name with another context designation, and
                 # served first: what `f` publishes and binds must not depend on it
                 if not view and not excluded and n >= 1 and (thorough or rng.random() < 0.5):
@@ -78,11 +85,19 @@ def generate(tier, rng):
 
 
 _OBJS = {}
+_PYD = {}
+
+
+def _pydantic_validator(excluded):
+    from pjrpc.server.validators import pydantic as vp
+    if excluded not in _PYD:
+        _PYD[excluded] = vp.PydanticValidator(exclude_param=(lambda name, ann, default: name in excluded) if excluded else None)
+    return _PYD[excluded]
 
 
 def build(c):
     m = c['method']
-    key = json.dumps([m, c.get('twin')], sort_keys=True)
+    key = json.dumps([m, c.get('twin'), c.get('validator')], sort_keys=True)
     if key in _OBJS:
         return _OBJS[key]
     excluded = m.get('excluded') or []
@@ -90,7 +105,9 @@ def build(c):
     view = bool(m.get('view'))
     obj = S.make_callable('specbind:' + key[:60], m['sig'], False, view, fresh=True)
     target = obj.vm if view else obj
-    if pred:
+    if c.get('validator') == 'pydantic':
+        _pydantic_validator(tuple(excluded)).validate(target)
+    elif pred:
         validators.BaseValidator(exclude_param=pred).validate(target)
     d = pjrpc.server.Dispatcher()
     if view:
@@ -135,7 +152,7 @@ def run_impl(c):
         # the twin is documented and served first
         mm = [d.registry['g'], method]
         for params in ({}, {k: 1 for k in c['keysets'][-1]}):
-            d.dispatch(json.dumps({'jsonrpc': '2.0', 'id': 0, 'method': 'g', 'params': params}), context=S.CTX)
+            d.dispatch(json.dumps({'jsonrpc': '2.0', 'id': 0, 'method': 'g', 'params': params}), context=S.next_ctx())
     try:
         doc = oas.schema(path='/', methods_map={'': mm})
         out['documented'], out['required'] = params_of_openapi(json.loads(json.dumps(doc, cls=pjrpc.server.specs.JSONEncoder)))
@@ -150,7 +167,7 @@ def run_impl(c):
     accepts = []
     for ks in c['keysets']:
         del S.LOG[:]
-        r = d.dispatch(json.dumps({'jsonrpc': '2.0', 'id': 1, 'method': 'f', 'params': {k: 1 for k in ks}}), context=S.CTX)
+        r = d.dispatch(json.dumps({'jsonrpc': '2.0', 'id': 1, 'method': 'f', 'params': {k: 1 for k in ks}}), context=S.next_ctx())
         doc = json.loads(r[0])
         accepts.append(not ('error' in doc and doc['error']['code'] == -32602))
     out['accepts'] = accepts
